@@ -268,7 +268,7 @@ ADDENDA2 = {
     "C05": " Added: D8.wavelet (value / derivative pairing of the wavelet rule: piecewise closed forms for order 1, chain rule over the uninterpreted table interpolation for order 3 with a table of justified shortcuts, interpolate<1> == d/dx interpolate<0>).",
     "C10": " Added: D8.kinds (as C04-D13), D10.canonical (points that went through formCanonicalPoints are never handed to another API method), D9.extent (in-place corrections of output buffers run over the extent the sizing overload gives the buffer), D11.conformal (symbolic fold of the three conformal (asin) routines for truncations 0..5: forward map = Maclaurin polynomial of asin normalised at 1, inverse = Newton iteration on that polynomial with its derivative series and the step r/(dr/dx), weight factor = Jacobian of the forward map, also at x = 0).",
     "C02": " Added: D8.independent (linear scale and conformal correction of integrate()/getQuadratureWeights() never depend on each other, shared with C10-D6), D10.quadsize (the Gauss-Legendre rule behind the Sequence basis integrals is sized after the reduction over all directions), D9.workset (the set behind getGlobalPolynomialSpace is the set the weights are computed for, shared with C03-D4).",
-    "C01": " D4.tree also covers dropping the needed points of a grid without loaded points (F86). Added: D11.ancestors (known finding F92); D10.restart (dependence analysis of the GMRES restart loop: every cycle starts from the residual of the current iterate, the iterate changes only through the Krylov reconstruction, F88).",
+    "C01": " D4.tree also covers dropping the needed points of a grid without loaded points (F86). Added: D11.ancestors (known finding F92); D10.restart (dependence analysis of the GMRES restart loop: every cycle starts from the residual of the current iterate, the iterate changes only through the Krylov reconstruction, F88). D5.vandermonde also executes the ancestor walk of van_matrix<pwc> row by row (concrete rows, exact arithmetic) and compares the collected ancestors with the ancestors whose basis function is non-zero at the node of the row (shared with C03-D3).",
     "C04": " D6.tree as in C01 (F86). Added: D11.restart (as C01-D10, F88: the transposed solve behind the weights), D12.vandermonde (entries of the Kronecker 1-D matrices are values of the basis evaluate() uses), D14.diffweights (product rule of the Sequence / Global / Fourier differentiation weights folded symbolically), D15.canonical (canonical coordinates are consumed by the grid object only, shared with C10-D10), D13.kinds (kind inference: nodal weights pair with nodal values, basis integrals with hierarchical coefficients in every integrate()).",
     "C06": " Added: D6 orders precision(17) before every floating point field; D12.nodes (Sequence node cache covers every converted index set); D13.perdim (per-dimension members rebuilt only from a non-empty set, F85); D14.sequenced (no call has two arguments that read from the stream - unspecified evaluation order; list initialisation is recognised through a new fact of the extractor), D15.accepts (readers reject on format, never on an order relation between restored values; positive control).",
     "C07": " Added: D9.norm for the Sequence grid (NaN-seeded running maximum, F74); D10.alloutputs (monotone accumulation over outputs); D11.limits (C08-D1.store shared), D12.child (C08-D7.child shared).",
